@@ -264,9 +264,47 @@ def run(ctx):
         if all(F(float(v)) == v for v in (bx, by)):
             trn.append(dict(c, xy=(bx, c["xy"][1])))
             trn.append(dict(c, xy=(c["xy"][0], by)))
+    def tri_partials(row, d, s, t):
+        idx = {}
+        pos = 0
+        for k in range(d + 1):
+            for j in range(d + 1 - k):
+                idx[(j, k)] = row[pos]; pos += 1
+        ds_net, dt_net = [], []
+        for k in range(d):
+            for j in range(d - k):
+                ds_net.append(d * (idx[(j + 1, k)] - idx[(j, k)]))
+                dt_net.append(d * (idx[(j, k + 1)] - idx[(j, k)]))
+        if d == 1:
+            return ds_net[0], dt_net[0]
+        return (oq.tri_bernstein(ds_net, d - 1, 1 - s - t, s, t), oq.tri_bernstein(dt_net, d - 1, 1 - s - t, s, t))
+
+    def judge_nt(c, op, cfg, raw):
+        """the step must solve J (ds, dt) = target - B(s, t) exactly (J from the exact partial derivatives)"""
+        d = c["d"]
+        s, t = c["pts"][0]
+        bx = oq.tri_bernstein(c["rows"][0], d, 1 - s - t, s, t)
+        by = oq.tri_bernstein(c["rows"][1], d, 1 - s - t, s, t)
+        xs, xt = tri_partials(c["rows"][0], d, s, t)
+        ys, yt = tri_partials(c["rows"][1], d, s, t)
+        det = xs * yt - xt * ys
+        fx, fy = c["xy"][0] - bx, c["xy"][1] - by
+        if det == 0:
+            return None
+        if "exc" in raw:
+            return "raised %s on a regular Jacobian" % raw["exc"]
+        got = dec_res(raw["ok"])
+        if not all(isinstance(x, F) for x in got):
+            return "non-finite Newton update"
+        want = (s + (fx * yt - xt * fy) / det, t + (xs * fy - fx * ys) / det)
+        big = max([abs(x) for x in (fx, fy, xs, xt, ys, yt)] + [F(1)])
+        tol = F(1, 2 ** 30) * max(abs(want[0]), abs(want[1]), F(1)) * max(F(1), big * big / abs(det))
+        if abs(got[0] - want[0]) > tol or abs(got[1] - want[1]) > tol:
+            return "Newton step (%r, %r), exact solution of the linearised system (%r, %r)" % (float(got[0]), float(got[1]), float(want[0]), float(want[1]))
+        return None
     correspond(ctx, "newton_refine_triangle", trn,
                [("shim.newton_refine_triangle", a_nt, val_out), ("hazmat.newton_refine_triangle", a_nt, val_out)],
-               coq_nt, HEADER, "chk_newton_triangle", nontrivial=nt)
+               coq_nt, HEADER, "chk_newton_triangle", judge=judge_nt, nontrivial=nt)
     return finish(ctx, "theorems: hodograph = formal derivative (dual numbers, every degree, any ring); Jacobian nets = partial "
                   "derivatives at the level of index functions; the scalar solves are regenerated from the source and proved exact. "
                   "Curvature is compared on kappa^2 (t.t)^3 = cross^2 (no square roots in the model); the list-level index walks of "
